@@ -39,4 +39,11 @@ def churnLimit (minChurn quot active : Nat) : Nat := max minChurn (active / quot
 def committeeCount (spe target maxc active : Nat) : Nat :=
   max 1 (min maxc (active / spe / target))
 
+/-- compute_subnet_for_attestation with ATTESTATION_SUBNET_COUNT = 64 -/
+def subnetForAttestation (spe committeesPerSlot slot committeeIndex : Nat) : Nat :=
+  (committeesPerSlot * (slot % spe) + committeeIndex) % 64
+
+/-- get_validator_activation_churn_limit (deneb), given get_validator_churn_limit -/
+def activationChurnLimit (maxActivationChurn churn : Nat) : Nat := min maxActivationChurn churn
+
 end Zrnt.Util.Spec
